@@ -4,6 +4,7 @@ import Ezc3dVerif.Model.Write
 import Ezc3dVerif.Model.SaveIO
 import Ezc3dVerif.Proofs.LoadWriteDec
 import Ezc3dVerif.Properties.C03b
+import Ezc3dVerif.Model.Standalone
 /-
   Line-protocol driver: runs the model on an op script and prints the same lines as the C++
   harness (/verif/harness/harness.cpp).
@@ -48,6 +49,8 @@ structure DState where
   vars : List (String × Frame) := []
   mode : DumpMode := .full
   pk : Param := { name := ofAscii "P" }     -- the parameter the pset ops work on
+  sp : List Group := defaultGroups           -- a stand-alone `Parameters` object (ops `sa ...`)
+  sg : Group := {}                           -- a stand-alone `Group` object
 
 def DState.getVar (d : DState) (v : String) : Frame :=
   match d.vars.find? (·.1 == v) with | some (_, f) => f | none => {}
@@ -152,6 +155,36 @@ def stepLine (d : DState) (n : Nat) (line : String) : IO (DState × List String)
   | ["mkframe", v, pts, subs] =>
     let f : Frame := { pts := (parsePts pts).getD [], subs := (parseSubs subs).getD [] }
     return (d.setVar v f, [hd])
+  | "sa" :: rest =>
+    -- the parameter classes on their own (Model/Standalone.lean)
+    let gLines (tag : String) (gi : Nat) (g : Group) : List String :=
+      s!"{tag}G {gi} {xhex g.name} {xhex g.desc} {b01 g.locked} {g.params.length}" ::
+      ((enum g.params).map fun (pi, p) => s!"{tag}P {gi} {pi} {paramLine p}")
+    let spLines (gs : List Group) : List String := (enum gs).foldr (fun (gi, g) acc => gLines "X" gi g ++ acc) []
+    match rest with
+    | ["pnew"] => return ({ d with sp := defaultGroups }, hd :: "R ok" :: spLines defaultGroups)
+    | "gnew" :: nm :: ds :: lk =>
+      let g : Group := { name := X nm, desc := X ds, locked := lk == ["1"] }
+      return ({ d with sg := g }, hd :: "R ok" :: gLines "Y" 0 g)
+    | ["gparam", nm, ds, lk, ty, dims, vals] =>
+      let p0 : Param := { name := X nm, desc := X ds }
+      match (if ty == "N" then Res.ok p0 else setParamFromScript p0 ty dims vals) with
+      | .throw e => return (d, [hd, s!"R set throw {e}"])
+      | .ub k => return (d, [hd, s!"R set ub {k.toString}"])
+      | .ok p1 =>
+        let p := { p1 with locked := lk == "1" }
+        match d.sg.addParam p with
+        | .ok g' => return ({ d with sg := g' }, hd :: "R ok" :: gLines "Y" 0 g')
+        | .throw e => return (d, hd :: s!"R throw {e}" :: gLines "Y" 0 d.sg)
+        | .ub k => return (d, [hd, s!"R ub {k.toString}"])
+    | ["gparamnc", i] => return (d, [hd, resStr paramLine (atIdx d.sg.params (parseNat! i))])
+    | ["pgroup"] =>
+      match Parameters.addGroup d.sp d.sg with
+      | .ok gs' => return ({ d with sp := gs' }, hd :: "R ok" :: spLines gs')
+      | .throw e gs' => return ({ d with sp := gs' }, hd :: s!"R throw {e}" :: spLines gs')
+      | .ub k => return (d, [hd, s!"R ub {k.toString}"])
+    | ["pgroupnc", i] => return (d, [hd, resStr (fun (g : Group) => s!"{xhex g.name} {g.params.length}") (atIdx d.sp (parseNat! i))])
+    | _ => return (d, [hd, "R badop"])
   | ["cpframe", v, i] =>
     -- a by-value copy of a stored frame: as a value, the frame itself
     match d.cur with
@@ -266,6 +299,15 @@ def stepLine (d : DState) (n : Nat) (line : String) : IO (DState × List String)
     | ["print"] => return (d, [hd, "R ok"])
     | ["dump"] => return (d, hd :: dumpLines d.mode s)
     | ["sep"] => return (d, [hd, "V sep ok"])    -- C08.reach_sep: separation holds in every reachable state of Model/Heap
+    | ["pload", g, pn] =>
+      -- the caller's copy of a stored parameter
+      match getParam s.groups (X g) (X pn) with
+      | .ok q => return ({ d with pk := q }, [hd, "R ok", "PS " ++ paramLine q])
+      | .throw e => return (d, [hd, s!"R throw {e}", "PS " ++ paramLine d.pk])
+      | .ub k => return (d, [hd, s!"R ub {k.toString}"])
+    | ["pput", g] =>
+      let (d', ls) := applyOutcome d (s.parameter fops (X g) d.pk)
+      return (d', hd :: ls)
     | ["pnew"] => let p0 : Param := { name := ofAscii "P" }; return ({ d with pk := p0 }, [hd, "R ok", "PS " ++ paramLine p0])
     | ["pset", ty, dims, vals] =>
       match setParamFromScript d.pk ty dims vals with
